@@ -16,7 +16,7 @@ var Dq = []string{
 	`{"a":1,"b":{"c":"s","d":null}}`,
 	`{"a":[1,null,{"x":true}],"b":"s"}`,
 	`[1,{"a":[2,3]},null]`,
-	`{"a/b":1,"m~n":{"a/b":[0]}}`,
+	`{"a/b":1,"m~n":{"a/b":[0]},"p%s%d%":null}`,
 	"{\"n\":1.0,\"e\":1e400,\"z\":-0,\"big\":12345678901234567890123,\"s\":\"é\\n\u2068\u2069\u2027\u202a\u2038\u203f\"}",
 	`{"h":"<>&","<k>":{"x":"a<b"}}`,
 	`{}`,
